@@ -59,6 +59,13 @@ def pollSmol (c : Chan) (r : Rcv) : Item × Rcv :=
   | (some v, r') => (.item v true, r')
   | (none, r') => (.pending, r')
 
+/-- a poll after the last `State` handle is gone (the channel is closed): what is still retained is delivered first,
+    then the stream ends -/
+def pollClosed (poll : Chan → Rcv → Item × Rcv) (c : Chan) (r : Rcv) : Item × Rcv :=
+  match poll c r with
+  | (.pending, r') => (.ended, r')
+  | x => x
+
 /-! one-shot notification (`Once`) -/
 inductive OnceSt | waiting | notified (v : Nat) | dropped | terminated
 deriving Repr, DecidableEq
@@ -75,22 +82,25 @@ inductive Op
   | set (v : Nat)
   | sub                 -- create a new subscriber (appended)
   | poll (k : Nat)      -- poll subscriber k once
+  | close               -- the last handle of the state is dropped
 deriving Repr
 
 structure St where
   chan : Chan
   subs : List Rcv
+  closed : Bool := false
 deriving Repr
 
 def run (poll : Chan → Rcv → Item × Rcv) : List Op → St → List (Nat × Item)
   | [], _ => []
   | .set v :: t, s => run poll t { s with chan := s.chan.send v }
   | .sub :: t, s => run poll t { s with subs := s.subs ++ [s.chan.subscribe] }
+  | .close :: t, s => run poll t { s with closed := true }
   | .poll k :: t, s =>
     match s.subs[k]? with
     | none => run poll t s
     | some r =>
-      let (o, r') := poll s.chan r
+      let (o, r') := (if s.closed then pollClosed poll else poll) s.chan r
       (k, o) :: run poll t { s with subs := s.subs.set k r' }
 
 def init : St := { chan := Chan.new, subs := [] }
